@@ -297,6 +297,9 @@ int main(int argc, char **argv)
                                         if (std::fabs(v1) > 1.25 * vm) { continue; }
                                         trap_one(vm, dir * A, -dir * D, p0, p0 + dir * dist, v0, v1);
                                         trap_one(-vm, dir * A, -dir * D, p0, p0 + dir * dist, v0, v1); // the same limit given with a negative sign
+                                        // the same request in units 4096 times smaller / larger (exact scaling of every length: the plan's
+                                        // times are the same, nothing in the definition is tied to unit scale)
+                                        if (p0 == 0) { for (double sc : {1.0 / 4096, 4096.0}) { trap_one(vm * sc, dir * A * sc, -dir * D * sc, 0, dir * dist * sc, v0 * sc, v1 * sc); } }
                                     }
                                 }
                             }
@@ -333,6 +336,7 @@ int main(int argc, char **argv)
                                         if (std::fabs(v1) > vm) { continue; }
                                         if (!bell_feasible(jm, am, dist, dir * v0, dir * v1)) { continue; }
                                         bell_one(jm, am, vm, p0, p0 + dir * dist, v0, v1);
+                                        if (p0 == 0 && v0 >= 0 && v1 >= 0) { for (double sc : {1.0 / 4096, 4096.0}) { bell_one(jm * sc, am * sc, vm * sc, 0, dir * dist * sc, v0 * sc, v1 * sc); } }
                                         if (p0 == 0) { bell_one(-jm, am, vm, p0, p0 + dir * dist, v0, v1); bell_one(jm, -am, vm, p0, p0 + dir * dist, v0, v1); bell_one(jm, am, -vm, p0, p0 + dir * dist, v0, v1); }
                                     }
                                 }
